@@ -1,3 +1,3 @@
 From Coq Require Import ExtrOcamlBasic.
-From ChibiV Require Import Common.ExtractBase C06.Defs C06.WindSpec Gen.C06_Travel C06.Machine C06.StackModel.
-Extraction "model.ml" ext_base run_script_impl run_script_spec travel_to_point wind_script travel_fuel save_stack restore_stack.
+From ChibiV Require Import Common.ExtractBase C06.Defs C06.WindSpec Gen.C06_Travel C06.Machine C06.StackModel C06.ValuesModel.
+Extraction "model.ml" ext_base run_script_impl run_script_spec step_spec init travel_to_point wind_script travel_fuel save_stack restore_stack restore_stack_g cwv_args cont_deliver values.
